@@ -49,6 +49,14 @@ func c04Run(c *mon.Ctx, unit int) {
 		}
 		s := ec.S
 		s.OptKeys = r.Chance(1, 6)
+		if k%3 == 1 {
+			// rule-free strings spelled with escapes the document scanner has to accept as well
+			s.Root.Walk(func(n *model.Node) {
+				if n.Kind == model.KString && len(n.Rules) == 0 && r.Chance(1, 3) {
+					n.Lit = mon.Pick(r, []string{`"https:\/\/example.com\/cats"`, `"a\/b"`, `"tab\there"`, `"\u0041\u00e9\u00E9"`, `"q\"q\\"`, `"\b\f\n\r"`})
+				}
+			})
+		}
 		inType := k%5 == 4
 		if inType {
 			// the generated tree becomes an ADDED TYPE referenced by a small root: the checker must
@@ -77,8 +85,9 @@ func c04Run(c *mon.Ctx, unit int) {
 			continue
 		}
 		// ---- forward: Validate(example) on the same schema object and on a fresh one
-		ex := gen.ExampleVal(s.Root)
-		doc := ex.Text()
+		// the example TEXT: the schema's literals exactly as they are written, annotations and
+		// insignificant blanks removed
+		doc := plainExampleText(s.Root)
 		for i, obs := range []lib.Obs{built.validate(doc), lib.Validate(sp, doc), built.validateChecked(doc)} {
 			c.Eval(1)
 			c.Count("forward: Validate(example) calls", 1)
@@ -98,6 +107,10 @@ func c04Run(c *mon.Ctx, unit int) {
 		c04Plant(c, r, ec)
 		if k%8 == 7 {
 			c04OrAcrossTypes(c, r)
+		}
+		if k%8 == 3 {
+			c04OrUntypedExclusive(c, r)
+			c04SharedTypeTwoRoots(c, r)
 		}
 		if k == 0 && unit < 6 {
 			c.Sample("accepted schema and its example", map[string]any{"spec": sp, "example": doc})
@@ -165,6 +178,74 @@ func c04CheckTwice(sp lib.Spec) (first, second lib.Obs) {
 	first = lib.Safe(s.Check)
 	second = lib.Safe(s.Check)
 	return first, second
+}
+
+// c04OrUntypedExclusive: an or rule-set WITHOUT a type rule carrying an exclusive bound; the
+// example sits exactly on the bound and no other rule-set admits it.
+func c04OrUntypedExclusive(c *mon.Ctx, r *mon.Rng) {
+	b := r.Range(2, 90)
+	bound := strconv.Itoa(b)
+	ex := model.Int(bound)
+	if r.Bool() {
+		bound += ".0"
+		ex = model.Flt(bound)
+	}
+	set := model.OrSet(model.RNum("max", bound), model.RBool("exclusiveMaximum", true))
+	if r.Bool() {
+		set = model.OrSet(model.RNum("min", bound), model.RBool("exclusiveMinimum", true))
+	}
+	if r.Bool() {
+		set.Rules[0], set.Rules[1] = set.Rules[1], set.Rules[0]
+	}
+	items := []model.OrItem{model.OrSet(model.RStr("type", "string")), set}
+	if r.Bool() {
+		items[0], items[1] = items[1], items[0]
+	}
+	target := ex.With(model.ROr(items...))
+	s := &model.Schema{Root: mon.Pick(r, []*model.Node{target, model.Obj(model.P("price", target)), model.Arr(model.Int("1"), target)})}
+	sp := specOf(s, model.Style{})
+	obs := lib.Check(sp)
+	want := target.Pos
+	c.Eval(1)
+	c.Count("converse: or rule-set without a type rule, example on its exclusive bound", 1)
+	switch {
+	case obs.Panic != "":
+		c.Violate("check-panic", c04Case{Spec: sp}, "no panic", obs.String(), "Check panicked")
+	case obs.OK:
+		c.Violate("converse", c04Case{Spec: sp, Pos: want}, "reject at "+strconv.Itoa(want), "accept", "Check accepts an example that sits on the exclusive bound of the only rule-set of its kind (rule-set without a type rule)")
+	case obs.Pos != want:
+		c.Violate("converse", c04Case{Spec: sp, Pos: want}, "reject at "+strconv.Itoa(want), fmt.Sprintf("reject at %d (code %d)", obs.Pos, obs.Code), "Check reports another position than the offending value (untyped or rule-set)")
+	}
+}
+
+// c04SharedTypeTwoRoots: ONE type object (@pager, holding `0 // {type: "@limit"}`) is added to two
+// roots. The first root binds @limit to a type that admits 0 and is checked (successfully); the
+// second binds @limit to a type that does not: its Check must fail at the literal inside @pager,
+// exactly as it does when it is the only root.
+func c04SharedTypeTwoRoots(c *mon.Ctx, r *mon.Rng) {
+	lo := r.Range(1, 9)
+	fam := c11Family{
+		Types: []lib.TypeDef{
+			{Name: "@limit", Text: "1 // {min: 0}"},
+			{Name: "@pager", Text: "{\n  \"page\": 1,\n  \"limit\": 0 // {type: \"@limit\"}\n}"},
+		},
+		Roots: []c11Root{
+			{Text: "{\n  \"p\": @pager\n}"},
+			{Text: "{\n  \"p\": @pager\n}", Override: []lib.TypeDef{{Name: "@limit", Text: fmt.Sprintf("%d // {min: %d}", lo, lo)}}},
+		},
+	}
+	want := strings.Index(fam.Types[1].Text, "0 //")
+	shared := c11BuildFamily(&fam, -1)
+	first := lib.Safe(shared.roots[0].Check)
+	second := lib.Safe(shared.roots[1].Check)
+	alone := lib.Safe(c11BuildFamily(&fam, 1).roots[1].Check)
+	c.Eval(1)
+	c.Count("converse: one type object in two roots, the example violates the second root's binding", 1)
+	got := fmt.Sprintf("first root: %s; second root: %s; second root alone: %s", first.Verdict(), c17ObsPos(second), c17ObsPos(alone))
+	exp := fmt.Sprintf("first root: accept; second root: reject at %d; second root alone: reject at %d", want, want)
+	if got != exp {
+		c.Violate("shared-type", map[string]any{"family": fam}, exp, got, "a type object shared by two roots is not checked against the second root's own types")
+	}
 }
 
 // c04Plant corrupts one node so that its example value violates one of its own rules.
@@ -400,6 +481,17 @@ func init() {
 					return "accept"
 				}
 				return "reject at " + strconv.Itoa(o.Pos)
+			},
+			"shared-type": func(raw json.RawMessage) string {
+				var cs struct {
+					Family c11Family `json:"family"`
+				}
+				json.Unmarshal(raw, &cs)
+				shared := c11BuildFamily(&cs.Family, -1)
+				first := lib.Safe(shared.roots[0].Check)
+				second := lib.Safe(shared.roots[1].Check)
+				alone := lib.Safe(c11BuildFamily(&cs.Family, 1).roots[1].Check)
+				return fmt.Sprintf("first root: %s; second root: %s; second root alone: %s", first.Verdict(), c17ObsPos(second), c17ObsPos(alone))
 			},
 			"converse-twice": func(raw json.RawMessage) string {
 				var cs c04Case
